@@ -569,6 +569,10 @@ class RequestHandler(BaseProtocol, Generic[_Request]):
         self._close = True
         if self._waiter:
             self._waiter.cancel()
+            # Idle, waiting for the next request: there is no handler to let
+            # finish, so the connection is closed right away.
+            if self.transport is not None:
+                self.transport.close()
 
     def force_close(self) -> None:
         """Forcefully close connection."""
